@@ -183,6 +183,71 @@ def make_oracle(ex, kinds, ident_idx, string_idx, stats):
     return oracle
 
 
+LITERAL_TYPES = ("StringLiteral", "NumericLiteral", "BooleanTrue", "BooleanFalse", "Nil")   # Proofs/LadderProofs.v literal_types
+
+
+def tord_oracle(tix):
+    """C06_lexed_tokens_ordered_all (Proofs/LexTord.v lex_tord_iff) evaluated on the REAL lexer's token ranges: every token has
+    start <= end, strictly for a token that is not a literal, and every token ends at or before the next one starts.  The theorem
+    says this holds EXACTLY for the texts without an empty comment (a ';' directly followed by the end of the line: the range of
+    a comment covers the text after the ';' only); both directions are checked."""
+    lit = {tix[n] for n in LITERAL_TYPES}
+    comment = tix["Comment"]
+
+    def oracle(case, out):
+        if out.startswith("PANIC") or out in ("CRASH", "HANG"):
+            return "the lexer did not return normally: " + out[:200]
+        tpart = out.split("|")[0]
+        toks = [t.split(":") for t in tpart.split(";")] if tpart else []
+        prev = None
+        empty_comment = False
+        for t in toks:
+            ty, raw = int(t[0]), int(t[1])
+            st, en = (int(t[2]), int(t[3])), (int(t[4]), int(t[5]))
+            if st > en:
+                return "token at offset %d: range end %r before its start %r" % (raw, en, st)
+            if ty == comment and t[6] == "":
+                empty_comment = True
+                if st != en:
+                    return "empty comment at offset %d has the non-empty range %r-%r (the model says zero width)" % (raw, st, en)
+            elif ty not in lit and st >= en:
+                return "token of type %d at offset %d is not a literal but its range %r-%r is empty" % (ty, raw, st, en)
+            if prev is not None and prev[1] > st:
+                return ("token at offset %d ends at %r, after the next token (offset %d) starts at %r"
+                        % (prev[0], prev[1], raw, st))
+            prev = (raw, en)
+        oracle.texts += 1
+        oracle.tokens += len(toks)
+        oracle.with_empty_comment += 1 if empty_comment else 0
+        return None
+    oracle.texts = oracle.tokens = oracle.with_empty_comment = 0
+    return oracle
+
+
+def lexed_tokens_ordered(ctx, hb, tix, programs):
+    """implementation-side stage: tord on the real lexer's output for the generated programs and ~2,000 texts of the C05 stream"""
+    from checks import c05
+    rng = random.Random(ctx.seed + 6)
+    pool = [c for c in c05.gen_cases(ctx) if c and c.count(".") >= 2]
+    ascii_pool = [c for c in pool if all(int(x) < 128 for x in c.split("."))]
+    other = [c for c in pool if not all(int(x) < 128 for x in c.split("."))]
+    texts = rng.sample(ascii_pool, min(2000, len(ascii_pool))) + rng.sample(other, min(300, len(other)))
+    # the regression pair of the repaired defect f444e80 and the empty-comment witness of LexTord.v
+    texts += [pc.enc("Foo('\u00e9\u00e9\u00e9\u00e9\u00e9\u00e9', xv)"), pc.enc("a ;\nb"), pc.enc("x = 'a\nb' + \"c\"\"d\" ;k\n#12 y")]
+    cases = list(programs) + texts
+    outs = core.run_lines(hb, "lex", cases)
+    orc = tord_oracle(tix)
+    fails = [(c, o, orc(c, o)) for c, o in zip(cases, outs)]
+    fails = [(c, o, r) for (c, o, r) in fails if r]
+    if fails:
+        c, o, r = min(fails, key=lambda t: len(t[0]))
+        path = core.write_replay(ctx.pid, ctx.seed, {"engine": "lex", "stage": "lexed_tokens_ordered", "case": c, "case_readable": pc.dec(c),
+                                                   "observed": o[:2000], "expected": r, "n_failing_cases": len(fails)})
+        raise core.Violation("lexed_tokens_ordered: " + r, path, True)
+    return {"texts": orc.texts, "programs": len(programs), "tokens": orc.tokens, "texts_with_empty_comment": orc.with_empty_comment,
+            "non_ascii_texts": sum(1 for c in cases if c and not all(int(x) < 128 for x in c.split(".")))}
+
+
 def correspondence(ctx, broken_obligations=()):
     t0 = time.time()
     levels, dot = G.read_ladder()
@@ -286,6 +351,13 @@ def correspondence(ctx, broken_obligations=()):
 
     cov2 = diff.differential(ctx, "encase", ecases, oracle=enc_oracle, split=lambda out: tuple(out.split("#", 1)),
                              nontrivial=lambda c: c.count(".") >= 10, describe=lambda c: pc.dec(c.split("|", 1)[0]) + " @ " + c.split("|", 1)[1][:200])
+    try:
+        lto = lexed_tokens_ordered(ctx, hb, tix, cases)
+        cov["lexed_tokens_ordered"] = lto["texts"]
+        cov["lexed_tokens_ordered_detail"] = lto
+    except core.Violation as v:
+        v.coverage = cov
+        raise
     cov["lookup_programs"] = cov2["programs"]
     cov["lookup_positions"] = nq
     cov["lookup_disagreements_checked"] = cov2["disagreements_checked"]
@@ -314,6 +386,16 @@ def replay(ctx, rep):
     if not case:
         print("nothing to replay: %s" % rep.get("broken"))
         return 1
+    if rep.get("stage") == "lexed_tokens_ordered":
+        out = core.run_lines(diff.Engines.harness(), "lex", [case], shards=1)[0]
+        r = tord_oracle(G.token_index())(case, out)
+        print("text:", repr(pc.dec(case))[:800])
+        print("implementation (lex):", out[:600])
+        print("oracle:", r or "the token ranges are ordered")
+        if r:
+            print("VIOLATION property=C06 replay=%s" % rep.get("how_to_rerun", "?").split()[-1])
+            return 1
+        return 0
     out = core.run_lines(diff.Engines.harness(), "parse", [case], shards=1)[0]
     mod = core.run_lines(diff.Engines.model(), "parse", [case], shards=1)[0]
     tix = G.token_index()
